@@ -16,7 +16,7 @@ Lemma vlink_dir k i j l : vlink g k (i, j) = Some l -> ldir l = 3%nat /\ la l = 
 Proof. intros E. apply vlink_cases in E. destruct E as [[E [A ->]]|[[E [A ->]]|[E ->]]]; auto. Qed.
 
 Lemma vlink_up k i j : (2 <= k <= nz g)%nat -> has g (k - 1) i j = true ->
-  vlink g k (i, j) = Some (mkLink (Cell k i j) (Cell (k - 1) i j) 3 (top g k - lcen g k) (zc g (k - 1) i j - bot g (k - 1)) (area g i j)).
+  vlink g k (i, j) = Some (mkLink (Cell k i j) (Cell (k - 1) i j) 3 (top g k - lcen g k) (zc g (k - 1) i j - bot g (k - 1)) (area g i j) neg1 1).
 Proof.
   intros Hk Hh. unfold vlink. replace (k =? 1)%nat with false by (symmetry; apply Nat.eqb_neq; lia).
   pose proof (has_above_surface g W k i j Hk Hh) as T.
@@ -32,17 +32,17 @@ Qed.
 Lemma vlink_top k i j : (1 <= k <= nz g)%nat -> is_top k i j ->
   vlink g k (i, j) =
   match gatm g with
-  | 0%nat => Some (mkLink (Cell k i j) Atm0 3 (gsurf g i j - zc g k i j) (gatmconn g) (area g i j))
-  | 1%nat => Some (mkLink (Cell k i j) (Cell 0 i j) 3 (gsurf g i j - zc g k i j) (gatmconn g) (area g i j))
+  | 0%nat => Some (mkLink (Cell k i j) Atm0 3 (gsurf g i j - zc g k i j) (gatmconn g) (area g i j) neg1 1)
+  | 1%nat => Some (mkLink (Cell k i j) (Cell 0 i j) 3 (gsurf g i j - zc g k i j) (gatmconn g) (area g i j) neg1 1)
   | _ => None
   end.
 Proof. intros Hk T. unfold vlink. rewrite (vlink_top_cond k i j Hk T). reflexivity. Qed.
 
 Lemma vlink_top0 k i j : (1 <= k <= nz g)%nat -> is_top k i j -> gatm g = 0%nat ->
-  vlink g k (i, j) = Some (mkLink (Cell k i j) Atm0 3 (gsurf g i j - zc g k i j) (gatmconn g) (area g i j)).
+  vlink g k (i, j) = Some (mkLink (Cell k i j) Atm0 3 (gsurf g i j - zc g k i j) (gatmconn g) (area g i j) neg1 1).
 Proof. intros Hk T A. rewrite (vlink_top k i j Hk T), A. reflexivity. Qed.
 Lemma vlink_top1 k i j : (1 <= k <= nz g)%nat -> is_top k i j -> gatm g = 1%nat ->
-  vlink g k (i, j) = Some (mkLink (Cell k i j) (Cell 0 i j) 3 (gsurf g i j - zc g k i j) (gatmconn g) (area g i j)).
+  vlink g k (i, j) = Some (mkLink (Cell k i j) (Cell 0 i j) 3 (gsurf g i j - zc g k i j) (gatmconn g) (area g i j) neg1 1).
 Proof. intros Hk T A. rewrite (vlink_top k i j Hk T), A. reflexivity. Qed.
 Lemma vlink_top2 k i j : (1 <= k <= nz g)%nat -> is_top k i j -> (2 <= gatm g)%nat -> vlink g k (i, j) = None.
 Proof. intros Hk T A. rewrite (vlink_top k i j Hk T). destruct (gatm g) as [|[|n]]; [lia|lia|reflexivity]. Qed.
@@ -179,9 +179,9 @@ Qed.
 
 (** ** direction 3 *)
 Definition uplink (k i j : nat) : linkrec :=
-  mkLink (Cell k i j) (Cell (k - 1) i j) 3 (top g k - lcen g k) (zc g (k - 1) i j - bot g (k - 1)) (area g i j).
+  mkLink (Cell k i j) (Cell (k - 1) i j) 3 (top g k - lcen g k) (zc g (k - 1) i j - bot g (k - 1)) (area g i j) neg1 1.
 Definition atmlink (k i j : nat) (a : cid) : linkrec :=
-  mkLink (Cell k i j) a 3 (gsurf g i j - zc g k i j) (gatmconn g) (area g i j).
+  mkLink (Cell k i j) a 3 (gsurf g i j - zc g k i j) (gatmconn g) (area g i j) neg1 1.
 (** walking up: we came from the block below (or start at the bottom layer) *)
 Definition from_below (last : option cid) (k i j : nat) : Prop :=
   (last = None /\ k = nz g) \/ (last = Some (Cell (S k) i j) /\ (S k <= nz g)%nat).
